@@ -19,7 +19,7 @@ def main():
     tier = a.tier if a.tier in ("quick", "thorough") else "quick"
     seed = int(os.environ.get("VERIF_SEED", "0") or 0)
     import torchjd
-    assert torchjd.__file__.startswith("/repo/src/"), torchjd.__file__
+    assert torchjd.__file__.startswith(os.environ.get("VERIF_REPO_SRC", "/repo/src") + "/"), torchjd.__file__
     mod = importlib.import_module(f"props.{a.pid.lower()}")
     chk = common.Check(a.pid, tier, seed, level=getattr(mod, "LEVEL", "proof"))
     if a.replay:
